@@ -246,6 +246,33 @@ def ble_read(M, r, nmax, encrypted):
     return h
 
 
+def ble_read_many(M, pieces_n):
+    """_read_pdu: a response dribbled out in many one-byte continuation fragments (more than 50) is still reassembled completely"""
+    def h(ex):
+        sym = is_sym(ex)
+        body = ex.fresh_bytes("body", pieces_n, opaque=True)
+        tid = ex.fresh_int("tid", 0, 255)
+        status = ex.fresh_int("status", 0, 6)
+        r = as_rope(body)
+        wire = [rope(byte(2), byte(tid), byte(status), le(pieces_n, 2), r.slice(0, 1))]
+        wire += [rope(byte(0x82), byte(tid), r.slice(i, i + 1)) for i in range(1, pieces_n)]
+        reads = []
+
+        class Client:
+            async def read_gatt_char(self, handle):
+                if len(reads) >= len(wire):
+                    raise EOFError("accessory has nothing more to send")
+                reads.append(len(reads))
+                return B(ex, wire[len(reads) - 1])
+
+        st, data = drive(M.client._read_pdu(Client(), None, Handle(), tid))
+        ex.require(st.value == status, "ble-in: status is the accessory's")
+        ex.require(rope_eq(data, body), "ble-in: a body sent in %d fragments is reassembled to what the accessory sent" % pieces_n)
+        ex.require(len(reads) == pieces_n, "ble-in: every fragment is read, none is left for the next transaction")
+        return ex.observe([st.value, slen(data), len(reads)])
+    return h
+
+
 def fragment_size(M):
     def h(ex):
         mtu = ex.fresh_int("mtu", 23, 517)
@@ -418,6 +445,7 @@ def build(tier, mutate=None):
         add("ble-in/_read_pdu/%s/pieces<=%d" % ("encrypted" if enc else "plain", r), ble_read, r, 600, enc, split=True,
             bounds={"pieces": r, "body_len": "0..600 (symbolic)", "control/tid per piece": "0..255 (symbolic)", "status": "0..6"},
             regions=["rejected", "multi-piece"])
+    add("ble-in/_read_pdu/plain/60-one-byte-fragments", ble_read_many, 60, bounds={"fragments": 60, "tid": "0..255", "status": "0..6 (symbolic)"})
     add("ble/fragment-size", fragment_size, bounds={"mtu": "23..517", "max_write_without_response": "0..512", "overhead": "0|16"})
     full_k = 2 if tier != "thorough" else 3
     for kk in range(1, k + 1):
@@ -430,6 +458,12 @@ def build(tier, mutate=None):
         kk = 2 if tier == "canary" else 3 if tier == "quick" else 4
         add("coap/pipeline/%s/k=%d" % (op, kk), coap_pipeline, op, kk, bounds={"items": kk, "per-item outcome": ITEM_OUTCOMES},
             regions=["item-ok", "item-error"])
+    if tier != "canary":
+        # which value lands on which characteristic of a CoAP batch read, end to end (unit of C13)
+        from . import c13
+        cw, rw = c13.coap_units(c13.copies(mutate))[2], c13.coap_units(c13.reals())[2]
+        units.append(Unit("coap/read_characteristics end to end (unit of C13)", cw, rw, bounds={"items": 3, "readable": "every subset", "empty value": "every subset"},
+                          regions=["coap-read-value", "coap-read-refused"]))
     return units
 
 
